@@ -41,7 +41,11 @@ pub struct ReadResult {
 
 fn modes(discard: bool) -> LinkModes {
     LinkModes {
-        error_mode: if discard { LinkErrorMode::Discard } else { LinkErrorMode::Close },
+        error_mode: if discard {
+            LinkErrorMode::Discard
+        } else {
+            LinkErrorMode::Close
+        },
         read_mode: LinkReadMode::Stream,
     }
 }
@@ -54,16 +58,38 @@ fn phys_port(p: PhysAddr) -> u16 {
 }
 
 /// datagram variant: every element is one datagram from an emulated UDP port
-pub fn run_reader_dgram(outstation: bool, local: u16, rx: usize, dgrams: &[(Vec<u8>, u16)], discard: bool, lvl: usize) -> ReadResult {
+pub fn run_reader_dgram(
+    outstation: bool,
+    local: u16,
+    rx: usize,
+    dgrams: &[(Vec<u8>, u16)],
+    discard: bool,
+    lvl: usize,
+) -> ReadResult {
     run_reader_impl(outstation, local, rx, &[], dgrams, discard, lvl)
 }
 
 /// feed chunks to a fresh library transport Reader, pop everything it delivers
-pub fn run_reader(outstation: bool, local: u16, rx: usize, chunks: &[Vec<u8>], discard: bool, lvl: usize) -> ReadResult {
+pub fn run_reader(
+    outstation: bool,
+    local: u16,
+    rx: usize,
+    chunks: &[Vec<u8>],
+    discard: bool,
+    lvl: usize,
+) -> ReadResult {
     run_reader_impl(outstation, local, rx, chunks, &[], discard, lvl)
 }
 
-fn run_reader_impl(outstation: bool, local: u16, rx: usize, chunks: &[Vec<u8>], dgrams: &[(Vec<u8>, u16)], discard: bool, lvl: usize) -> ReadResult {
+fn run_reader_impl(
+    outstation: bool,
+    local: u16,
+    rx: usize,
+    chunks: &[Vec<u8>],
+    dgrams: &[(Vec<u8>, u16)],
+    discard: bool,
+    lvl: usize,
+) -> ReadResult {
     let (pipe, mut phys) = io::phys_pipe(None);
     for c in chunks {
         pipe.push(c);
@@ -82,7 +108,12 @@ fn run_reader_impl(outstation: bool, local: u16, rx: usize, chunks: &[Vec<u8>], 
         Reader::master(m, addr, rx)
     };
     let level = decode_level(lvl);
-    let mut res = ReadResult { fragments: vec![], link_msgs: 0, error: None, tx: vec![] };
+    let mut res = ReadResult {
+        fragments: vec![],
+        link_msgs: 0,
+        error: None,
+        tx: vec![],
+    };
     loop {
         let r = {
             let mut fut = std::pin::pin!(reader.read(&mut phys, level));
@@ -126,9 +157,17 @@ fn run_reader_impl(outstation: bool, local: u16, rx: usize, chunks: &[Vec<u8>], 
 }
 
 /// run the library Writer, return the bytes it put on the wire
-pub fn run_writer(w: &mut Writer, dest: u16, fragment: &[u8], lvl: usize) -> Result<Vec<u8>, String> {
+pub fn run_writer(
+    w: &mut Writer,
+    dest: u16,
+    fragment: &[u8],
+    lvl: usize,
+) -> Result<Vec<u8>, String> {
     let (pipe, mut phys) = io::phys_pipe(None);
-    let dest = FragmentAddr { link: EndpointAddress::try_new(dest).unwrap(), phys: PhysAddr::None };
+    let dest = FragmentAddr {
+        link: EndpointAddress::try_new(dest).unwrap(),
+        phys: PhysAddr::None,
+    };
     let r = {
         let mut fut = std::pin::pin!(w.write(&mut phys, decode_level(lvl), dest, fragment));
         poll_once(fut.as_mut())
@@ -146,7 +185,12 @@ fn viol(a: &ShardArgs, rule: &str, sig: &str, detail: J) {
         &format!("C08.{rule}"),
         sig,
         detail,
-        J::obj(vec![("check", J::s("c08")), ("seed", J::U(a.seed)), ("shard", J::U(a.shard)), ("nshards", J::U(a.nshards))]),
+        J::obj(vec![
+            ("check", J::s("c08")),
+            ("seed", J::U(a.seed)),
+            ("shard", J::U(a.shard)),
+            ("nshards", J::U(a.nshards)),
+        ]),
     );
 }
 
@@ -199,7 +243,12 @@ fn explain(segs: &[Seg], got: &Got, max: usize) -> bool {
     }
     'start: for s in 0..segs.len() {
         let f = &segs[s];
-        if f.kind != 0 || !f.fir() || f.src != got.source || f.bc() != got.broadcast || f.port != got.port {
+        if f.kind != 0
+            || !f.fir()
+            || f.src != got.source
+            || f.bc() != got.broadcast
+            || f.port != got.port
+        {
             continue;
         }
         if !got.data.starts_with(&f.data) {
@@ -268,7 +317,13 @@ fn clean_runs(segs: &[Seg], max: usize) -> Vec<Got> {
                     break;
                 }
                 let g = &segs[k];
-                if g.fir() || g.src != f.src || g.port != f.port || g.bc() != f.bc() || g.dest != f.dest || g.seq() != (seq + 1) & 0x3F {
+                if g.fir()
+                    || g.src != f.src
+                    || g.port != f.port
+                    || g.bc() != f.bc()
+                    || g.dest != f.dest
+                    || g.seq() != (seq + 1) & 0x3F
+                {
                     ok = false;
                     break;
                 }
@@ -279,7 +334,12 @@ fn clean_runs(segs: &[Seg], max: usize) -> Vec<Got> {
             }
             let single = j == i;
             if ok && data.len() <= max && (f.bc() == 0 || single) {
-                out.push(Got { source: f.src, broadcast: f.bc(), port: f.port, data });
+                out.push(Got {
+                    source: f.src,
+                    broadcast: f.bc(),
+                    port: f.port,
+                    data,
+                });
             }
         }
         i += 1;
@@ -299,7 +359,10 @@ pub fn run(a: &ShardArgs) -> Result<(), String> {
 
     // ------------------------------------------------------------ part A+C
     // every fragment length 1..=2048 (sharded) through Writer -> wire -> Reader
-    let mut w_master = Writer::new(EndpointType::Master, EndpointAddress::try_new(MASTER).unwrap());
+    let mut w_master = Writer::new(
+        EndpointType::Master,
+        EndpointAddress::try_new(MASTER).unwrap(),
+    );
     let mut expect_seq: u8 = 0;
     let mut len = 1usize;
     let maxlen = 2048 + 251;
@@ -322,18 +385,26 @@ pub fn run(a: &ShardArgs) -> Result<(), String> {
             // (c) decode with the reference
             let scan = rl::scan_close(&wire);
             let nseg = (len + 248) / 249;
-            let mut ok = scan.error.is_none() && scan.stop == wire.len() && scan.frames.len() == nseg;
+            let mut ok =
+                scan.error.is_none() && scan.stop == wire.len() && scan.frames.len() == nseg;
             let mut rebuilt = vec![];
             let mut why = String::new();
             if ok {
                 for (i, (_, f)) in scan.frames.iter().enumerate() {
                     if f.ctrl != 0xC4 || f.dest != OUT || f.src != MASTER || f.payload.is_empty() {
                         ok = false;
-                        why = format!("frame {i} header ctrl={:#x} dest={} src={}", f.ctrl, f.dest, f.src);
+                        why = format!(
+                            "frame {i} header ctrl={:#x} dest={} src={}",
+                            f.ctrl, f.dest, f.src
+                        );
                         break;
                     }
                     let h = f.payload[0];
-                    let want = rt::header(i + 1 == nseg, i == 0, expect_seq.wrapping_add(i as u8) & 0x3F);
+                    let want = rt::header(
+                        i + 1 == nseg,
+                        i == 0,
+                        expect_seq.wrapping_add(i as u8) & 0x3F,
+                    );
                     if h != want {
                         ok = false;
                         why = format!("segment {i} of {nseg}: transport header {h:#04x}, expected {want:#04x}");
@@ -341,7 +412,10 @@ pub fn run(a: &ShardArgs) -> Result<(), String> {
                     }
                     if i + 1 < nseg && f.payload.len() != 250 {
                         ok = false;
-                        why = format!("non-final segment {i} carries {} bytes", f.payload.len() - 1);
+                        why = format!(
+                            "non-final segment {i} carries {} bytes",
+                            f.payload.len() - 1
+                        );
                         break;
                     }
                     rebuilt.extend_from_slice(&f.payload[1..]);
@@ -351,12 +425,33 @@ pub fn run(a: &ShardArgs) -> Result<(), String> {
                     why = "reassembled bytes differ".into();
                 }
             } else {
-                why = format!("wire not a clean sequence of {nseg} frames: {} found, error {:?}", scan.frames.len(), scan.error);
+                why = format!(
+                    "wire not a clean sequence of {nseg} frames: {} found, error {:?}",
+                    scan.frames.len(),
+                    scan.error
+                );
             }
             expect_seq = expect_seq.wrapping_add(nseg as u8) & 0x3F;
             if !ok {
-                viol(a, "writer", &format!("writer|len%249={}", if len % 249 == 0 { "0" } else if len % 249 == 1 { "1" } else { "n" }),
-                     J::obj(vec![("len", J::U(len as u64)), ("why", J::s(why)), ("wire", J::hex(&wire[..wire.len().min(600)]))]));
+                viol(
+                    a,
+                    "writer",
+                    &format!(
+                        "writer|len%249={}",
+                        if len % 249 == 0 {
+                            "0"
+                        } else if len % 249 == 1 {
+                            "1"
+                        } else {
+                            "n"
+                        }
+                    ),
+                    J::obj(vec![
+                        ("len", J::U(len as u64)),
+                        ("why", J::s(why)),
+                        ("wire", J::hex(&wire[..wire.len().min(600)])),
+                    ]),
+                );
             } else {
                 out::count("writer_ok", 1);
             }
@@ -375,32 +470,100 @@ pub fn run(a: &ShardArgs) -> Result<(), String> {
                 // follow with a small clean fragment so that "next one is delivered" is checked too
                 let tail = tagged(&mut r, 8);
                 let mut stream = wire.clone();
-                let mut w2 = Writer::new(EndpointType::Master, EndpointAddress::try_new(MASTER).unwrap());
+                let mut w2 = Writer::new(
+                    EndpointType::Master,
+                    EndpointAddress::try_new(MASTER).unwrap(),
+                );
                 stream.extend(run_writer(&mut w2, OUT, &tail, 0)?);
                 let (cname, chunks) = match variant {
                     0 => ("whole", vec![stream.clone()]),
                     1 => ("bytewise", split_every(&stream, 1)),
                     _ => chunking(&mut r, &stream),
                 };
-                let got = run_reader(true, OUT, rx, &chunks, r.bool(), r.usize_below(NUM_DECODE_LEVELS));
+                let got = run_reader(
+                    true,
+                    OUT,
+                    rx,
+                    &chunks,
+                    r.bool(),
+                    r.usize_below(NUM_DECODE_LEVELS),
+                );
                 out::eval(1);
                 let mut want = vec![];
                 if len <= rx {
-                    want.push(Got { source: MASTER, broadcast: 0, port: 0, data: frag.clone() });
+                    want.push(Got {
+                        source: MASTER,
+                        broadcast: 0,
+                        port: 0,
+                        data: frag.clone(),
+                    });
                 }
-                want.push(Got { source: MASTER, broadcast: 0, port: 0, data: tail.clone() });
+                want.push(Got {
+                    source: MASTER,
+                    broadcast: 0,
+                    port: 0,
+                    data: tail.clone(),
+                });
                 if got.fragments != want || got.error.is_some() {
-                    let rule = if got.fragments.len() > want.len() || got.fragments.iter().any(|g| !want.contains(g)) { "soundness" } else { "completeness" };
-                    viol(a, rule, &format!("{rule}|roundtrip|{}|{}", if len > rx { "len>rx" } else if len == rx { "len=rx" } else { "len<rx" }, cname),
-                         J::obj(vec![
-                            ("len", J::U(len as u64)), ("rx", J::U(rx as u64)), ("chunking", J::s(cname)),
-                            ("delivered_lens", J::arr(got.fragments.iter().map(|g| g.data.len()))),
+                    let rule = if got.fragments.len() > want.len()
+                        || got.fragments.iter().any(|g| !want.contains(g))
+                    {
+                        "soundness"
+                    } else {
+                        "completeness"
+                    };
+                    viol(
+                        a,
+                        rule,
+                        &format!(
+                            "{rule}|roundtrip|{}|{}",
+                            if len > rx {
+                                "len>rx"
+                            } else if len == rx {
+                                "len=rx"
+                            } else {
+                                "len<rx"
+                            },
+                            cname
+                        ),
+                        J::obj(vec![
+                            ("len", J::U(len as u64)),
+                            ("rx", J::U(rx as u64)),
+                            ("chunking", J::s(cname)),
+                            (
+                                "delivered_lens",
+                                J::arr(got.fragments.iter().map(|g| g.data.len())),
+                            ),
                             ("error", J::s(format!("{:?}", got.error))),
-                         ]));
+                        ]),
+                    );
                 } else {
-                    out::count(if len > rx { "oversize_dropped_next_ok" } else { "roundtrip_ok" }, 1);
+                    out::count(
+                        if len > rx {
+                            "oversize_dropped_next_ok"
+                        } else {
+                            "roundtrip_ok"
+                        },
+                        1,
+                    );
                 }
-                out::distinct(&format!("A/{}/{}/{}", match len % 249 { 0 => "k*249", 1 => "k*249+1", 248 => "k*249-1", _ => "other" }, if len > rx { ">rx" } else if len == rx { "=rx" } else { "<rx" }, cname));
+                out::distinct(&format!(
+                    "A/{}/{}/{}",
+                    match len % 249 {
+                        0 => "k*249",
+                        1 => "k*249+1",
+                        248 => "k*249-1",
+                        _ => "other",
+                    },
+                    if len > rx {
+                        ">rx"
+                    } else if len == rx {
+                        "=rx"
+                    } else {
+                        "<rx"
+                    },
+                    cname
+                ));
             }
         }
         len += 1;
@@ -415,7 +578,11 @@ pub fn run(a: &ShardArgs) -> Result<(), String> {
             out::progress(&format!("B it={it}"));
         }
         let outstation = r.below(5) != 0;
-        let (local, peer_a, peer_b) = if outstation { (OUT, MASTER, 2u16) } else { (MASTER, OUT, 1025u16) };
+        let (local, peer_a, peer_b) = if outstation {
+            (OUT, MASTER, 2u16)
+        } else {
+            (MASTER, OUT, 1025u16)
+        };
         let rx = *r.pick(&[249usize, 250, 300, 498, 1000, 2048]);
         // build a few valid fragments from sender A (and sometimes B), then mutate the segment list
         let mut segs: Vec<Seg> = vec![];
@@ -425,7 +592,11 @@ pub fn run(a: &ShardArgs) -> Result<(), String> {
         for _ in 0..nfrag {
             let from_b = r.chance(1, 4);
             let src = if from_b { peer_b } else { peer_a };
-            let dest = if outstation && r.chance(1, 8) { 0xFFFD + r.below(3) as u16 } else { local };
+            let dest = if outstation && r.chance(1, 8) {
+                0xFFFD + r.below(3) as u16
+            } else {
+                local
+            };
             let flen = match r.below(4) {
                 0 => r.range(1, 20) as usize,
                 1 => r.range(200, 260) as usize,
@@ -435,7 +606,14 @@ pub fn run(a: &ShardArgs) -> Result<(), String> {
             let frag = tagged(&mut r, flen);
             let seq = if from_b { &mut seq_b } else { &mut seq_a };
             for s in rt::segment(&frag, *seq) {
-                segs.push(Seg { port: 0, src, dest, hdr: s[0], data: s[1..].to_vec(), kind: 0 });
+                segs.push(Seg {
+                    port: 0,
+                    src,
+                    dest,
+                    hdr: s[0],
+                    data: s[1..].to_vec(),
+                    kind: 0,
+                });
                 *seq = (*seq + 1) & 0x3F;
             }
         }
@@ -464,7 +642,11 @@ pub fn run(a: &ShardArgs) -> Result<(), String> {
                     classes.push("swap");
                 }
                 3 => {
-                    segs[i].src = if segs[i].src == peer_a { peer_b } else { peer_a };
+                    segs[i].src = if segs[i].src == peer_a {
+                        peer_b
+                    } else {
+                        peer_a
+                    };
                     classes.push("readdr");
                 }
                 4 => {
@@ -476,26 +658,67 @@ pub fn run(a: &ShardArgs) -> Result<(), String> {
                     classes.push("fin-flip");
                 }
                 6 => {
-                    segs[i].hdr = (segs[i].hdr & 0xC0) | ((segs[i].hdr.wrapping_add(r.range(1, 63) as u8)) & 0x3F);
+                    segs[i].hdr = (segs[i].hdr & 0xC0)
+                        | ((segs[i].hdr.wrapping_add(r.range(1, 63) as u8)) & 0x3F);
                     classes.push("seq-skip");
                 }
                 7 => {
-                    segs.insert(i, Seg { port: 0, src: peer_a, dest: local, hdr: 0, data: vec![], kind: 1 });
+                    segs.insert(
+                        i,
+                        Seg {
+                            port: 0,
+                            src: peer_a,
+                            dest: local,
+                            hdr: 0,
+                            data: vec![],
+                            kind: 1,
+                        },
+                    );
                     classes.push("linkstatus");
                 }
                 8 => {
-                    segs.insert(i, Seg { port: 0, src: peer_a, dest: local, hdr: 0, data: vec![], kind: 2 });
+                    segs.insert(
+                        i,
+                        Seg {
+                            port: 0,
+                            src: peer_a,
+                            dest: local,
+                            hdr: 0,
+                            data: vec![],
+                            kind: 2,
+                        },
+                    );
                     classes.push("empty-frame");
                 }
                 9 => {
                     // interleave a foreign single segment
                     let d = tagged(&mut r, 10);
-                    segs.insert(i, Seg { port: 0, src: peer_b, dest: local, hdr: rt::header(r.bool(), r.bool(), r.u8()), data: d, kind: 0 });
+                    segs.insert(
+                        i,
+                        Seg {
+                            port: 0,
+                            src: peer_b,
+                            dest: local,
+                            hdr: rt::header(r.bool(), r.bool(), r.u8()),
+                            data: d,
+                            kind: 0,
+                        },
+                    );
                     classes.push("interleave");
                 }
                 _ => {
                     // transport-header-only segment
-                    segs.insert(i, Seg { port: 0, src: peer_a, dest: local, hdr: rt::header(r.bool(), r.bool(), r.u8()), data: vec![], kind: 0 });
+                    segs.insert(
+                        i,
+                        Seg {
+                            port: 0,
+                            src: peer_a,
+                            dest: local,
+                            hdr: rt::header(r.bool(), r.bool(), r.u8()),
+                            data: vec![],
+                            kind: 0,
+                        },
+                    );
                     classes.push("hdr-only");
                 }
             }
@@ -503,10 +726,21 @@ pub fn run(a: &ShardArgs) -> Result<(), String> {
         // final clean fragment after the damage: must be delivered intact
         let tail_len = r.range(1, rx as u64) as usize;
         let tail = tagged(&mut r, tail_len.max(6));
-        let tail = if tail.len() > rx { tail[..rx].to_vec() } else { tail };
+        let tail = if tail.len() > rx {
+            tail[..rx].to_vec()
+        } else {
+            tail
+        };
         let tseq = r.below(64) as u8;
         for s in rt::segment(&tail, tseq) {
-            segs.push(Seg { port: 0, src: peer_a, dest: local, hdr: s[0], data: s[1..].to_vec(), kind: 0 });
+            segs.push(Seg {
+                port: 0,
+                src: peer_a,
+                dest: local,
+                hdr: s[0],
+                data: s[1..].to_vec(),
+                kind: 0,
+            });
         }
         // emulated UDP: one frame per datagram, ports identify the physical sender; a second
         // physical sender may share a link address with the first (only the port differs)
@@ -526,36 +760,112 @@ pub fn run(a: &ShardArgs) -> Result<(), String> {
         // master never accepts broadcasts: frames to broadcast addresses are dropped by its link layer
         let wire: Vec<u8> = segs.iter().flat_map(|s| s.frame(outstation)).collect();
         let (cname, got) = if dgram {
-            let d: Vec<(Vec<u8>, u16)> = segs.iter().map(|s| (s.frame(outstation), s.port)).collect();
-            ("datagrams", run_reader_dgram(outstation, local, rx, &d, r.bool(), r.usize_below(NUM_DECODE_LEVELS)))
+            let d: Vec<(Vec<u8>, u16)> =
+                segs.iter().map(|s| (s.frame(outstation), s.port)).collect();
+            (
+                "datagrams",
+                run_reader_dgram(
+                    outstation,
+                    local,
+                    rx,
+                    &d,
+                    r.bool(),
+                    r.usize_below(NUM_DECODE_LEVELS),
+                ),
+            )
         } else {
             let (cname, chunks) = chunking(&mut r, &wire);
-            (cname, run_reader(outstation, local, rx, &chunks, r.bool(), r.usize_below(NUM_DECODE_LEVELS)))
+            (
+                cname,
+                run_reader(
+                    outstation,
+                    local,
+                    rx,
+                    &chunks,
+                    r.bool(),
+                    r.usize_below(NUM_DECODE_LEVELS),
+                ),
+            )
         };
         out::eval(1);
         classes.sort();
         classes.dedup();
-        let mclass = if classes.is_empty() { "none".to_string() } else { classes.join("+") };
+        let mclass = if classes.is_empty() {
+            "none".to_string()
+        } else {
+            classes.join("+")
+        };
         let detail = |why: &str, extra: J| {
             J::obj(vec![
                 ("why", J::s(why)),
-                ("role", J::s(if outstation { "outstation" } else { "master" })),
+                (
+                    "role",
+                    J::s(if outstation { "outstation" } else { "master" }),
+                ),
                 ("rx", J::U(rx as u64)),
                 ("mutations", J::s(mclass.clone())),
-                ("segments", J::A(segs.iter().map(|s| J::s(format!("k{} {}->{} hdr={:02x} len={}", s.kind, s.src, s.dest, s.hdr, s.data.len()))).collect())),
-                ("delivered", J::A(got.fragments.iter().map(|g| J::s(format!("src={} bc={:#x} len={}", g.source, g.broadcast, g.data.len()))).collect())),
+                (
+                    "segments",
+                    J::A(
+                        segs.iter()
+                            .map(|s| {
+                                J::s(format!(
+                                    "k{} {}->{} hdr={:02x} len={}",
+                                    s.kind,
+                                    s.src,
+                                    s.dest,
+                                    s.hdr,
+                                    s.data.len()
+                                ))
+                            })
+                            .collect(),
+                    ),
+                ),
+                (
+                    "delivered",
+                    J::A(
+                        got.fragments
+                            .iter()
+                            .map(|g| {
+                                J::s(format!(
+                                    "src={} bc={:#x} len={}",
+                                    g.source,
+                                    g.broadcast,
+                                    g.data.len()
+                                ))
+                            })
+                            .collect(),
+                    ),
+                ),
                 ("extra", extra),
             ])
         };
         if let Some(e) = &got.error {
-            viol(a, "reader_error", &format!("reader_error|{mclass}"), detail(e, J::Null));
+            viol(
+                a,
+                "reader_error",
+                &format!("reader_error|{mclass}"),
+                detail(e, J::Null),
+            );
             continue;
         }
         // soundness
-        let visible: Vec<Seg> = segs.iter().filter(|s| outstation || s.bc() == 0).cloned().collect();
+        let visible: Vec<Seg> = segs
+            .iter()
+            .filter(|s| outstation || s.bc() == 0)
+            .cloned()
+            .collect();
         for g in &got.fragments {
             if !explain(&visible, g, rx) {
-                viol(a, "soundness", &format!("soundness|{mclass}"), detail("delivered fragment is not a well-formed run of injected segments", J::hex(&g.data[..g.data.len().min(64)])));
+                viol(
+                    a,
+                    "soundness",
+                    &format!("soundness|{mclass}"),
+                    detail(
+                        "delivered fragment is not a well-formed run of injected segments",
+                        J::hex(&g.data[..g.data.len().min(64)]),
+                    ),
+                );
             } else {
                 out::count("delivered_explained", 1);
             }
@@ -565,18 +875,33 @@ pub fn run(a: &ShardArgs) -> Result<(), String> {
         let mut cursor = 0usize;
         for want in &runs {
             // must appear, in order
-            match got.fragments[cursor.min(got.fragments.len())..].iter().position(|g| g == want) {
+            match got.fragments[cursor.min(got.fragments.len())..]
+                .iter()
+                .position(|g| g == want)
+            {
                 Some(p) => {
                     cursor += p + 1;
                     out::count("clean_runs_delivered", 1);
                 }
                 None => {
-                    viol(a, "completeness", &format!("completeness|{mclass}"), detail("a contiguous well-formed run within the buffer size was not delivered", J::U(want.data.len() as u64)));
+                    viol(
+                        a,
+                        "completeness",
+                        &format!("completeness|{mclass}"),
+                        detail(
+                            "a contiguous well-formed run within the buffer size was not delivered",
+                            J::U(want.data.len() as u64),
+                        ),
+                    );
                 }
             }
         }
         // the tail in particular
-        let tail_got = got.fragments.last().map(|g| g.data == tail && g.source == peer_a).unwrap_or(false);
+        let tail_got = got
+            .fragments
+            .last()
+            .map(|g| g.data == tail && g.source == peer_a)
+            .unwrap_or(false);
         if dgram {
             out::count("datagram_scenarios", 1);
         }
@@ -590,8 +915,21 @@ pub fn run(a: &ShardArgs) -> Result<(), String> {
             if s.kind == 0 {
                 let mut seg = vec![s.hdr];
                 seg.extend_from_slice(&s.data);
-                if let Some(d) = model.feed(i, rt::Ident { source: s.src, broadcast: s.bc(), port: s.port }, &seg) {
-                    mdel.push(Got { source: d.ident.source, broadcast: d.ident.broadcast, port: d.ident.port, data: d.data });
+                if let Some(d) = model.feed(
+                    i,
+                    rt::Ident {
+                        source: s.src,
+                        broadcast: s.bc(),
+                        port: s.port,
+                    },
+                    &seg,
+                ) {
+                    mdel.push(Got {
+                        source: d.ident.source,
+                        broadcast: d.ident.broadcast,
+                        port: d.ident.port,
+                        data: d.data,
+                    });
                 }
             }
         }
@@ -599,9 +937,17 @@ pub fn run(a: &ShardArgs) -> Result<(), String> {
             out::count("model_agrees", 1);
         } else {
             out::count("model_differs", 1);
-            out::note(format!("reference reassembler differs (not a violation by itself): mutations={mclass}"));
+            out::note(format!(
+                "reference reassembler differs (not a violation by itself): mutations={mclass}"
+            ));
         }
-        out::distinct(&format!("B/{}/{}/rx{}/{}", if outstation { "o" } else { "m" }, mclass, rx, cname));
+        out::distinct(&format!(
+            "B/{}/{}/rx{}/{}",
+            if outstation { "o" } else { "m" },
+            mclass,
+            rx,
+            cname
+        ));
         if out::sample_count() < 2 {
             out::sample(detail("sample scenario", J::Null));
         }
